@@ -1,7 +1,7 @@
 package gose
 
 // Further library models, added after probing which calls a refactoring or a change of
-// scipipe might plausibly introduce (harness VxLibProbe, tools/libprobe.sh): directory
+// scipipe might plausibly introduce (harness VxHLibProbe, tools/libprobe.sh): directory
 // listing, io.ReadAll / io.Copy on modelled files, temp directories, sync.Once,
 // sync/atomic, RWMutex read locks, timers, more of time.Time, bytes helpers.
 
@@ -117,6 +117,30 @@ func init() {
 	}
 	reg("io/ioutil.TempDir", mkTemp)
 	reg("os.MkdirTemp", mkTemp)
+	reg("os.Chmod", func(m *Machine, fn *ssa.Function, a []Value) Value {
+		p := m.mustStr(a[0], "os.Chmod")
+		if m.Env.node(m.Env.abs(p)) == nil {
+			return m.errVal("ENOENT", "chmod "+p+": no such file or directory")
+		}
+		return nilErr()
+	})
+	reg("(*os.File).Chmod", func(m *Machine, fn *ssa.Function, a []Value) Value { return nilErr() })
+	reg("os.Chtimes", intrinsics["os.Chmod"])
+	// the number of CPUs of the host is an input: any value in 1..64
+	reg("runtime.NumCPU", func(m *Machine, fn *ssa.Function, a []Value) Value {
+		if v, ok := m.userData["__numcpu"]; ok {
+			return v
+		}
+		c := m.C
+		v := c.Var("host.numcpu", 32)
+		m.declInput(&InputDecl{Name: v.Name, Kind: "int", Bits: 32, Term: v})
+		m.assertPC(c.And(c.Sle(c.BV(32, 1), v), c.Sle(v, c.BV(32, 64))))
+		m.userData["__numcpu"] = v
+		return v
+	})
+	reg("runtime.GOMAXPROCS", func(m *Machine, fn *ssa.Function, a []Value) Value {
+		return intrinsics["runtime.NumCPU"](m, fn, nil)
+	})
 	reg("os.TempDir", func(m *Machine, fn *ssa.Function, a []Value) Value { return "/tmp" })
 	reg("os.Chdir", func(m *Machine, fn *ssa.Function, a []Value) Value {
 		p := m.mustStr(a[0], "os.Chdir")
